@@ -163,6 +163,21 @@ def check_C01(tier, seed):
     sem_leg(o, "random-seq", ["--family", "seq"], n // 3, seed + 3)
     # translation validation: the real compiler's bytecode on the specification's opcode-level machine
     sem_and_frames(o, "translation", ["--family", "mixed"], n // 3, seed + 4, steps=3000)
+    # non-vacuity of the reference semantics on this input distribution: every action of NlSem is taken
+    wd = os.path.join(core.OUT, "C01_random-mixed")
+    merged = os.path.join(wd, "coverage_sample.ndjson")
+    with open(merged, "w") as fh:
+        for k in range(6):
+            fk = os.path.join(wd, f"r{k}.ndjson")
+            if os.path.exists(fk):
+                fh.write(open(fk).read())
+    rc = core.run_tlc("TV_Sem.tla", "TV_Sem.cfg", env={"RECS": merged}, workdir_=wd, coverage=True)
+    acts = {k.split(".")[1]: v for k, v in rc.coverage.items() if k.startswith("NlSem.")}
+    never = sorted(a for a, v in acts.items() if v == 0 and a not in ("Init",))
+    o.extra["nlsem_actions"] = len(acts)
+    o.extra["nlsem_actions_never_taken"] = never
+    if len(acts) < 30 or never:
+        raise ToolError(f"NlSem action coverage: {len(acts)} actions reported, never taken: {never}")
     o.extra["rule"] = "records = generated programs (type-directed, seeded) plus the repository's own corpus; each run of the real eval is validated against the deterministic NlSem machine"
     return o.finish()
 
